@@ -26,7 +26,7 @@ RULE = (
 )
 
 
-FOCI = ["twin_ranges", "fix_zero_save", "float_m_restart", "float_m_restart_params", "gauss_range", "gauss_groups", "fix_tied", "pull_range", "fix_fit_free", "range_mag", "pull_groups"]
+FOCI = ["twin_ranges", "fix_zero_save", "phase_tie", "float_m_restart", "float_m_restart_params", "gauss_range", "gauss_groups", "fix_tied", "pull_range", "fix_fit_free", "range_mag", "pull_groups"]
 
 
 def plan(tier, seed):
@@ -103,7 +103,7 @@ def generate(job):
     # constraints (resolved against the built model by index)
     cons = []
     for _ in range(rc.weighted([(0, 1), (1, 3), (2, 4), (3, 2)]) if not slow else rc.weighted([(0, 1), (1, 3)])):
-        k = rc.weighted([("float_m", 3), ("float_g", 2), ("float_mg", 2), ("var_equal", 3), ("var_range", 3), ("fix_var", 2), ("gauss", 1), ("fix_tied", 1.5)])
+        k = rc.weighted([("float_m", 3), ("float_g", 2), ("float_mg", 2), ("var_equal", 3), ("var_range", 3), ("fix_var", 2), ("gauss", 1), ("fix_tied", 1.5), ("var_equal_phase", 1.5)])
         cons.append({"k": k, "i": rc.randrange(100), "j": rc.randrange(100), "side": rc.choice(["two", "two", "lower", "upper"]), "w": round(rc.uniform(0.05, 0.4), 3), "v": round(rc.uniform(0.3, 1.5), 3)})
     focus = job.get("focus")
     if focus and not slow:
@@ -121,6 +121,7 @@ def generate(job):
             "pull_groups": [dict(base, k="float_m"), dict(base, k="var_range", j=1)],
             "twin_ranges": [dict(base, k="float_m", w=round(rc.uniform(0.1, 0.2), 3))],
             "fix_zero_save": [],
+            "phase_tie": [dict(base, k="var_equal_phase")],
         }[focus] + cons[:1]
         if focus in ("gauss_groups", "pull_groups"):
             spec["n_groups"] = 2
@@ -134,7 +135,7 @@ def generate(job):
         if not slow and rc.chance(0.25):
             spec["pull"] = rc.choice([1.0, 2.0])
     spec["constraints"] = cons
-    if any(c["k"] in ("var_equal", "fix_tied") for c in cons) and not slow:
+    if any(c["k"] in ("var_equal", "fix_tied", "var_equal_phase") for c in cons) and not slow:
         spec["card"] = cards.make_card(rs.child("model3"), "S3", n_res=3)  # two free magnitudes to tie
     ops = []
     if slow:
@@ -178,6 +179,8 @@ def generate(job):
             ops = [{"k": "fix_zero_save", "method": ro.choice(FAST), "i": ro.randrange(100), "how": ro.choice(["save_as", "save_params"])}, fit(ro.choice(FAST))] + ops[:1]
         elif focus in ("fix_tied", "range_mag"):
             ops = [fit(ro.choice(FAST))] + ops[:2]
+        elif focus == "phase_tie":
+            ops = [fit(ro.choice(["BFGS", "CG", "L-BFGS-B"]), ro.choice([2, 4])), fit(ro.choice(FAST))] + ops[:1]
         elif ro.chance(0.15):
             ops.insert(ro.randrange(len(ops)), {"k": "fix_fit_free", "method": ro.choice(FAST), "maxiter": 2})
         elif ro.chance(0.12):
@@ -236,6 +239,16 @@ def apply_constraints(card, cons, names, log, free=None):
                 used.add(("tie", b))
                 constr.setdefault("var_equal", []).append([a, b])
                 info["ties"].append([a, b])
+        elif k == "var_equal_phase" and len(free_mags) >= 2:
+            # only the PHASES of two free couplings are tied (their magnitudes stay independent)
+            ph = [n[:-1] + "i" for n in free_mags if n[:-1] + "i" in names]
+            if len(ph) >= 2:
+                a, b = ph[c["i"] % len(ph)], ph[(c["i"] + 1) % len(ph)]
+                if a != b and not any(("tie", x) in used or ("range", x) in used for x in (a, b)):
+                    used.update({("tie", a), ("tie", b)})
+                    constr.setdefault("var_equal", []).append([a, b])
+                    info["ties"].append([a, b])
+                    info.setdefault("phase_ties", []).append([a, b])
         elif k == "fix_tied" and len(free_mags) >= 2:
             # the same variable fixed AND the non-first member of a tie whose first member is free
             a, b = free_mags[c["i"] % len(free_mags)], free_mags[(c["i"] + 1) % len(free_mags)]
@@ -356,8 +369,9 @@ class Session:
         amp = self.config.get_amplitude()
         for a, b in self.info["ties"]:
             if rs.chance(0.6):
-                v = float(amp.get_params()[a])
-                amp.set_params({a: -abs(v) - 0.2})
+                n = a[:-1] + "r" if a.endswith("i") else a  # phase tie: the radius of one partner starts negative
+                v = float(amp.get_params()[n])
+                amp.set_params({n: -abs(v) - 0.2})
 
     def my_nll(self, config):
         fcn = config.get_fcn([self.data, self.phsp, None, None], batch=self.spec["batch"])
